@@ -237,6 +237,35 @@ fn feature(s: &str) -> String {
     if f.is_empty() { "plain".into() } else { f.join("+") }
 }
 
+/// (kind, spelling, value) of literals of every kind and quote form, short bodies included
+fn literal_pool() -> Vec<(&'static str, String, V)> {
+    let mut out: Vec<(&'static str, String, V)> = vec![];
+    for body in ["", "c", "ab", "a\"b", "é", "漢字x", "\n"] {
+        let chars: Vec<char> = body.chars().collect();
+        for (kind, form) in [("text1", 1usize), ("text3", 3), ("text4", 4)] {
+            if let Some(s) = spell_text(&chars, form, false) {
+                out.push((kind, s, V::Text(chars.clone())));
+            }
+        }
+    }
+    for bytes in [vec![], vec![99u8], vec![97, 98], vec![0, 255]] {
+        if let Some(s) = spell_bytes_quoted(&bytes) {
+            out.push(("bytes1", s, V::Bytes(bytes.clone())));
+        }
+        for q in [3usize, 4] {
+            if let Some(s) = spell_bytes_numeric(&bytes, q) {
+                out.push((if q == 3 { "bytes3" } else { "bytes4" }, s, V::Bytes(bytes.clone())));
+            }
+        }
+    }
+    out.push(("integer", "5".into(), V::Int(5)));
+    out.push(("integer", "1_000".into(), V::Int(1000)));
+    out.push(("radix-integer", "016_ff".into(), V::Int(255)));
+    out.push(("float", "3.5".into(), V::Float(3.5)));
+    out.push(("symbol", ":k".into(), V::Sym(symbol_value("k"))));
+    out
+}
+
 const TEXT_ALPHABET: &[char] = &['a', '"', '\\', '\n', '\t', 'é', '漢', '😀', ' '];
 
 fn int_boundaries() -> Vec<i32> {
@@ -278,6 +307,7 @@ impl Check for C14Check {
             Phase::exhaustive("bytes", (1 + 9 + 81) * 3).with_chunk(32),
             Phase::exhaustive("symbols", 12).with_chunk(2),
             Phase::random("random", tier.pick(60_000, 1_500_000), 96).with_min_tape(24).with_chunk(1024),
+            Phase::exhaustive("literal-pairs", { let n = literal_pool().len() as u64; n * n * 2 }).with_chunk(64),
         ]
     }
     fn run(&self, _tier: Tier, phase: usize, input: &Input, ctx: &mut CaseCtx) {
@@ -344,6 +374,29 @@ impl Check for C14Check {
                 let names = ["a", "my_symbol", "x1", "A_b_9", "snake_case_name", "a:b", "é", "名前", "naïve", "x漢y", "k", "Zz"];
                 let n = names[*i as usize];
                 self.judge("symbol", &format!(":{}", n), &V::Sym(symbol_value(n)), None, Some(n), !n.is_ascii() || n.contains('_'), ctx);
+            }
+            (5, Input::Index(i)) => {
+                // two literals in one source: what the first one leaves behind in the lexer must not leak into the second
+                let pool = literal_pool();
+                let n = pool.len() as u64;
+                let sep = if *i % 2 == 0 { ", " } else { " " };
+                let (a, b) = (&pool[((*i / 2) / n) as usize], &pool[((*i / 2) % n) as usize]);
+                let src = format!("{}{}{}", a.1, sep, b.1);
+                ctx.render(|| format!("{:?} should be the list of {} and {}", src, a.2, b.2));
+                ctx.class("literal-pair");
+                ctx.nontrivial(fnv(src.as_bytes()));
+                let expected = V::List(vec![a.2.clone(), b.2.clone()]);
+                for imp in Impl::BOTH {
+                    ctx.sub_evals += 1;
+                    match eval_literal(imp, &src, None) {
+                        Err(e) => ctx.fail(format!("literal-after-literal-not-evaluated:{}-then-{}:{}", a.0, b.0, classify_error(&e)), format!("{:?} on {}: {} (each literal alone is fine)", src, imp.name(), e)),
+                        Ok((v, _)) => {
+                            if !same(&v, &expected) {
+                                ctx.fail(format!("literal-after-literal-denotes-something-else:{}-then-{}", a.0, b.0), format!("{:?} on {} evaluates to {} instead of {}", src, imp.name(), v, expected));
+                            }
+                        }
+                    }
+                }
             }
             (4, Input::Tape(t)) => {
                 let mut t = Tape::new(t);
